@@ -203,6 +203,8 @@ class MemoryBank:
             else:
                 raw_data.append(None)
         if use_latch and self.has_latch:
+            # Reading memory has cleared the unit's write-enable state
+            yield _EnableWriteMemory(addr)
             yield _DTR0(addr, 2)
             yield _WriteMemoryLocationNoReply(addr, 0xFF)
         result = {}
